@@ -5,6 +5,7 @@ Open Scope Q_scope.
 
 Record cin := { a_fn : nat;                        (* 0 anneal_quso 1 anneal_puso 2 anneal_qubo 3 anneal_pubo *)
                 a_src : option kind; a_terms : terms; a_upd : terms;
+                a_mp : option (list (label * nat));      (* set_mapping / set_reverse_mapping before the call (labelled models) *)
                 a_tab : exptab; a_Ts : list Q; a_num : Z; a_in_order : bool;
                 a_init : option (list (label * Z)); a_seed : N }.
 Definition cout := aout.
@@ -12,7 +13,8 @@ Definition cout := aout.
 Definition mk_src (c : cin) : result asrc :=
   match a_src c with
   | None => Ok (SrcDict (a_terms c))
-  | Some k => bind (m_create k (a_terms c)) (fun m => bind (m_update m (a_upd c)) (fun m' => Ok (SrcModel m')))
+  | Some k => bind (m_create k (a_terms c)) (fun m => bind (m_update m (a_upd c)) (fun m' =>
+                Ok (SrcModel (match a_mp c with Some l => set_mapping m' l | None => m' end))))
   end.
 
 Definition run_case (c : cin) : cout :=
